@@ -81,6 +81,20 @@ class _Patches:
             for m in (qsim, qflow):
                 self.saved.append((m, "open", getattr(m, "open", None)))
                 m.open = self.disk
+            # the CSV files are written by pandas: route those writes through the same disk seam
+            import pandas as pd
+
+            orig = pd.DataFrame.to_csv
+            disk = self.disk
+
+            def to_csv(df, path_or_buf=None, *a, **kw):
+                if isinstance(path_or_buf, (str, os.PathLike)) and str(path_or_buf).startswith(disk.out_dir):
+                    with disk(str(path_or_buf), "w", newline="") as f:
+                        return orig(df, f, *a, **kw)
+                return orig(df, path_or_buf, *a, **kw)
+
+            self.saved.append((pd.DataFrame, "to_csv", orig))
+            pd.DataFrame.to_csv = to_csv
         return self
 
     def __exit__(self, *exc):
@@ -151,7 +165,7 @@ def execute_flow(cfg, schedule=None, rng=None, max_yields=None, keep_dir=False, 
                                                    is_computation_time_required=cfg.get("is_computation_time_required", True))
         stats_f["stale_output_dir"] = 1
     crash = None if is_ref else schedule.get("crash")
-    disk = DiskSeam(out_dir, crash_at=(crash or {}).get("at_write"), torn=(crash or {}).get("torn"))
+    disk = DiskSeam(out_dir, crash_at=(crash or {}).get("at_write"), torn=(crash or {}).get("torn"), enospc_at=None if is_ref else schedule.get("enospc_at"))
     saved = ProcGlobals.capture()
     ProcGlobals(np_seed=(parent_seed * 2654435761 + 12345) % (2 ** 32), py_seed=parent_seed + 99).install()
     if cfg.get("parent_atol"):
@@ -174,6 +188,15 @@ def execute_flow(cfg, schedule=None, rng=None, max_yields=None, keep_dir=False, 
         res["globals_after"] = {"atol": Settings.get_atol() if not cfg.get("parent_atol") else 1e-13, "ineq_eps": pvc.get_ineq_const_eps()}
     except SimAbort as e:
         res = {"ok": False, "abort": str(e)}
+    except OSError as e:
+        if disk.enospc_fired:
+            # a transient disk-full error: the only acceptable outcome is that the run fails with it
+            res = {"ok": False, "task_fault_propagated": f"OSError {e.errno}"}
+            stats_f["disk_full"] = stats_f.get("disk_full", 0) + 1
+        else:
+            import traceback
+
+            res = {"ok": False, "exception": f"{type(e).__name__}: {str(e)[:300]}", "trace": traceback.format_exc()[-1500:]}
     except InjectedTaskFault as e:
         # the only acceptable outcome of a failed task: the run fails with that error (nothing is returned)
         res = {"ok": False, "task_fault_propagated": str(e)}
@@ -194,6 +217,9 @@ def execute_flow(cfg, schedule=None, rng=None, max_yields=None, keep_dir=False, 
             res_stray = [f for _, _, fs in os.walk(os.path.dirname(os.path.dirname(sim.worker_cwd))) for f in fs]
             if res_stray:
                 stats_p["files_landed_in_a_worker_cwd"] = len(res_stray)
+    if disk.enospc_fired and res.get("ok"):
+        stats_f["disk_full"] = stats_f.get("disk_full", 0) + 1
+        stats_p["run_returned_despite_disk_full"] = stats_p.get("run_returned_despite_disk_full", 0) + 1
     res["disk_writes"] = disk.writes
     res["disk_written"] = list(disk.written)
     res["out_dir"] = out_dir
@@ -219,6 +245,8 @@ def _clean_schedule(rec):
         out["worker_cwd"] = True
     if rec.get("task_fault"):
         out["task_fault"] = rec["task_fault"]
+    if rec.get("enospc_at"):
+        out["enospc_at"] = rec["enospc_at"]
     for e in rec.get("proc", []):
         out["proc"].append({k: v for k, v in e.items() if not k.startswith("_")})
     for e in rec.get("threads", []):
@@ -305,6 +333,8 @@ def run_record(record, want_record=True, gen=None):
             sched = record["schedules"][si]
         if sched.get("fault_free"):
             rng = None  # trivial decisions: the replay fallback (one batch, worker 0, FIFO, no switch)
+        if gen and sched.get("enospc_at") == "pending":
+            sched["enospc_at"] = rng.randint(2, max(2, ref.get("disk_writes", 2)))
         if gen and sched.get("crash") == "pending":
             sched["crash"] = {"at_write": rng.randint(1, max(1, ref.get("disk_writes", 1))), "torn": rng.choice([None, None, 0.0, 0.5, 0.9])}
         is_crash = bool(sched.get("crash"))
@@ -403,6 +433,8 @@ def _with_disk_faults(rng, cfg, hdr):
     if rng.random() < 0.08:
         # fault kind task_exception: one task fails; the run must fail with it, never return a silently incomplete result
         hdr["task_fault"] = [[rng.choice(["_execute_estimation", "_execute_estimation", "execute_simulation_case_unit"]), rng.randint(1, 4), "raise", 0]]
+    elif rng.random() < 0.08:
+        hdr["enospc_at"] = "pending"  # one write fails once with "no space left on device"
     if rng.random() < 0.2:
         hdr["worker_cwd"] = True  # the pool's processes were started in another directory than the caller's current one
     cheap = not any(c["estimator"] == "lossmin" and c.get("loss") in ("se", "re") for c in cfg["cases"])
